@@ -4,6 +4,7 @@ import (
 	"bytes"
 	"fmt"
 	"testing"
+	"time"
 
 	"verif/mc/explore"
 	"verif/mc/harness/gw"
@@ -296,9 +297,67 @@ func connSpecs(prop string) []gw.Spec {
 	return out
 }
 
+// E2 (C09): the broker answers the MQTT CONNECT the moment it is written, so its CONNACK can be handled by the
+// other thread before the thread that sent the CONNECT has finished its own bookkeeping of the exchange.
+func c09e2() []gw.E2Spec {
+	var out []gw.E2Spec
+	for _, rc := range []byte{0, 5} {
+		for _, will := range []bool{false, true} {
+			rc, will := rc, will
+			cfg := gw.DefaultConfig()
+			name := fmt.Sprintf("e2:prompt broker CONNACK(%d), will=%t", rc, will)
+			inject := []string{gw.EvC("CONNECT(c1,30)", gw.Connect("c1", 30, will, true))}
+			sp := gw.E2Spec{Name: name, Cfg: cfg, Inject: inject,
+				Auto: func(p refmqtt.Pkt) [][]byte {
+					if p.Type == refmqtt.CONNECT {
+						return [][]byte{refmqtt.EncConnack(rc)}
+					}
+					return nil
+				},
+				AutoClient: func(p refsn.Pkt, nth int) [][]byte {
+					switch p.Type {
+					case refsn.WILLTOPICREQ:
+						return [][]byte{gw.WillTopic("w", 1, false)}
+					case refsn.WILLMSGREQ:
+						return [][]byte{gw.WillMsg("m")}
+					}
+					return nil
+				},
+				Then: []string{gw.EvAdvance(300 * time.Millisecond)}, Horizon: time.Second,
+				Check: func(g *gw.GW, sn []gw.SNOut, mq []gw.MQOut) []explore.Violation {
+					want := byte(0) // accepted
+					if rc != 0 {
+						want = 1 // congestion
+					}
+					var got []string
+					n := 0
+					for _, o := range sn {
+						got = append(got, o.String())
+						if o.Err == nil && o.P.Type == refsn.CONNACK {
+							n++
+							if o.P.RC != want {
+								n = -100
+							}
+						}
+					}
+					if n != 1 {
+						return []explore.Violation{{Property: "C09", Sig: fmt.Sprintf("e2:connack-translation:broker-rc=%d", rc), Detail: fmt.Sprintf("the broker answered the MQTT CONNECT at once with return code %d: the client got %v, want exactly one CONNACK with return code %d", rc, got, want)}}
+					}
+					return nil
+				}}
+			out = append(out, sp)
+		}
+	}
+	return out
+}
+
 func runConn(t *testing.T, prop, test string) {
 	specs := connSpecs(prop)
 	if explore.IsWorker() {
+		if prop == "C09" {
+			gw.ServeAll(t, specs, c09e2())
+			return
+		}
 		gw.ServeBFS(t, specs)
 		return
 	}
@@ -309,7 +368,12 @@ func runConn(t *testing.T, prop, test string) {
 	}
 	gw.BFSCheck(rep, specs, gw.BFSOpts{Test: test, Depth: depth}, 120, 900)
 	rep.Coverage["rule"] = "breadth-first search over all orderings of CONNECT{will,no will,keep-alive 0} / AUTH{PLAIN x2, malformed x2, unknown method, empty method} / WILLTOPIC{non-empty,empty} / WILLMSG{m,empty} / broker CONNACK{0..6} (only while a CONNECT is unanswered), for auth on/off x gateway credentials {none, user+password, user only}; monitor per connect exchange"
-	rep.Assumptions = []string{"default schedule (no preemption within one event)", "the broker answers only CONNECTs it received"}
+	rep.Assumptions = []string{"BFS part: default schedule (no preemption within one event)", "the broker answers only CONNECTs it received"}
+	if prop == "C09" {
+		explore.RunScenarios(rep, gw.Scenarios(t, c09e2()), explore.ScenarioOpts{Test: test, QuickBound: 2, ThoroughFrom: 2, ThoroughMax: 4, Unbounded: true,
+			QuickBudget: 60 * time.Second, ThoroughBudge: 5 * time.Minute})
+		rep.Coverage["rule"] = fmt.Sprint(rep.Coverage["rule"]) + "; E2 part: CONNECT (with and without will) against a broker that answers the MQTT CONNECT the moment it is written (return codes 0 and 5), all interleavings of the handler's threads within the preemption bound: exactly one CONNACK, accepted resp. congestion"
+	}
 	rep.Finish()
 }
 
